@@ -11,3 +11,11 @@ open Dashu.Props.C08
 #print axioms from_ieee_exact
 #print axioms parse_literal_exact
 #print axioms print_parse_round_trip
+#print axioms parse_eq_grammar
+#print axioms grammar_digit_string
+#print axioms parse_ok_denotes
+#print axioms print_precision_text
+#print axioms print_precision_rounding
+#print axioms print_precision_parse
+#print axioms with_precision_contract
+#print axioms with_precision_unlimited
